@@ -377,6 +377,14 @@ class Interp:
                         and self.facts.eq(ctx.n, base.prealloc):
                     ctx.appended.setdefault(id(base), []).append(v)      # the slot of this position: the same as appending in order
                     return
+                n = self.facts.norm(base.prealloc).const_value()
+                if ctx is None and n is not None and not base.items:
+                    # the length has become a constant on this path (a loop over range(d) decided d): the list is what it was created as
+                    base.items = [VNone() for _ in range(int(n))]
+                    base.prealloc = None
+                    k = self.concrete_index(idx, len(base.items))
+                    base.items[k] = v
+                    return
                 raise Unmodelled("store into a preallocated list at a position other than the loop's own")
             if isinstance(base, VList):
                 idx = self.ev(t.slice, fr)
@@ -424,6 +432,8 @@ class Interp:
     def iter_concrete(self, v):
         if isinstance(v, (VList, VTuple)):
             return list(v.items)
+        if isinstance(v, VObj) and v.cls.startswith("record:"):
+            return [v.attrs[k] for k in v.attrs["__fields__"]]
         if isinstance(v, VRange):
             a, b = self.facts.norm(v.start).const_value(), self.facts.norm(v.stop).const_value()
             if a is not None and b is not None:
@@ -786,6 +796,20 @@ class Interp:
                     return self.const(c)
                 if isinstance(gv, ast.Call) and (self.model.resolve(fr.f.module, gv.func) or "").startswith("logging."):
                     return VOpaque("logger")
+                if isinstance(gv, ast.Call) and (self.model.resolve(fr.f.module, gv.func) or "") == "collections.namedtuple" and len(gv.args) == 2 \
+                        and isinstance(gv.args[0], ast.Constant):
+                    fl = gv.args[1]
+                    names = None
+                    if isinstance(fl, (ast.List, ast.Tuple)) and all(isinstance(x, ast.Constant) and isinstance(x.value, str) for x in fl.elts):
+                        names = tuple(x.value for x in fl.elts)
+                    elif isinstance(fl, ast.Constant) and isinstance(fl.value, str):
+                        names = tuple(fl.value.replace(",", " ").split())
+                    if names is not None:
+                        return VRecordType(str(gv.args[0].value), names)
+                if isinstance(gv, (ast.Tuple, ast.List, ast.Set)) and all(isinstance(x, ast.Constant) for x in gv.elts):
+                    # a module-level table of literals bound once: `_PRECONDITIONERS = (None, 'c', 'r')`
+                    items = [self.const(x.value) for x in gv.elts]
+                    return VTuple(tuple(items)) if not isinstance(gv, ast.List) else VList(items)
             return VBool(None, f"global {e.id}")       # module-level flag (e.g. C++ backend availability)
         r = self.model.resolve(fr.f.module, e)
         if r == "builtins.Ellipsis":
